@@ -6,7 +6,9 @@
  "properties": {"C05": "contract", "C19": "safety"},
  "mode": "harness",
  "kind": "proof-const-unwind",
- "unwind": 4,
+ "unwindset": ["typecompatible.0:1", "typecompatible:3", "mkbinaryexpr:2"],
+ "variants": {"A_TMUL": ["-DU_ARITH", "-DV_OP=TMUL"], "A_TDIV": ["-DU_ARITH", "-DV_OP=TDIV"], "A_TMOD": ["-DU_ARITH", "-DV_OP=TMOD"], "A_TADD": ["-DU_ARITH", "-DV_OP=TADD"], "A_TSUB": ["-DU_ARITH", "-DV_OP=TSUB"], "A_TSHL": ["-DU_ARITH", "-DV_OP=TSHL"], "A_TSHR": ["-DU_ARITH", "-DV_OP=TSHR"], "A_TLESS": ["-DU_ARITH", "-DV_OP=TLESS"], "A_TGREATER": ["-DU_ARITH", "-DV_OP=TGREATER"], "A_TLEQ": ["-DU_ARITH", "-DV_OP=TLEQ"], "A_TGEQ": ["-DU_ARITH", "-DV_OP=TGEQ"], "A_TEQL": ["-DU_ARITH", "-DV_OP=TEQL"], "A_TNEQ": ["-DU_ARITH", "-DV_OP=TNEQ"], "A_TBAND": ["-DU_ARITH", "-DV_OP=TBAND"], "A_TBOR": ["-DU_ARITH", "-DV_OP=TBOR"], "A_TXOR": ["-DU_ARITH", "-DV_OP=TXOR"], "P_TADD": ["-DV_OP=TADD"], "P_TSUB": ["-DV_OP=TSUB"], "P_TLESS": ["-DV_OP=TLESS"], "P_TGREATER": ["-DV_OP=TGREATER"], "P_TLEQ": ["-DV_OP=TLEQ"], "P_TGEQ": ["-DV_OP=TGEQ"], "P_TEQL": ["-DV_OP=TEQL"], "P_TNEQ": ["-DV_OP=TNEQ"], "P_TLAND": ["-DV_OP=TLAND"], "P_TLOR": ["-DV_OP=TLOR"]},
+ "canary_variant": "P_TADD",
  "link_repo": ["type.c"],
  "timeout": 300,
  "expects": ["assertion_verif", "assertion_repo"],
@@ -16,7 +18,7 @@
              "bit-fields declared with a type wider than int promote by width when width <= 32 (implementation-defined; gcc's rule)",
              "referenced complete object types have size > 0 (no VLA element types)",
              "C23 nullptr_t operands of == and != are outside C11 and excluded",
-             "recursion depth of mkbinaryexpr is 2 (pointer arithmetic builds one inner '*' or '-'), of typecompatible <= 3 on this universe: --unwind 4 with unwinding assertions"]
+             "recursion depth of mkbinaryexpr is 2 (pointer arithmetic builds one inner '*' or '-'), of typecompatible <= 3 on this universe, its parameter loop runs 0 times (the universe's function type has no parameters): unwindset with unwinding assertions"]
 }
 */
 #include "expr.c"
@@ -24,9 +26,12 @@
 #include "mkbinary_common.h"
 
 #define SC        g_signedchar
-#define COMMON    spec_common(LC, g_lw, RC, g_rw, SC)
-#define PROM_L    spec_promote(LC, g_lw, SC)
-#define PROM_R    spec_promote(RC, g_rw, SC)
+/* oracle values, computed once by the harness (no function calls inside PRE/POST: CBMC 6.11 mis-evaluates calls nested
+   in || / && chains of an assertion) */
+int g_common, g_proml, g_promr;
+#define COMMON    g_common      /* == spec_common(LC, g_lw, RC, g_rw, SC)  6.3.1.8 */
+#define PROM_L    g_proml       /* == spec_promote(LC, g_lw, SC)           6.3.1.1p2 */
+#define PROM_R    g_promr
 #define RL        (HRET->u.binary.l)
 #define RR        (HRET->u.binary.r)
 
@@ -63,6 +68,7 @@
 	PRE_WF(X) \
 	/* the operands satisfy the constraints of the operator (C11 6.5.5-6.5.14): this unit is about VALID expressions */ \
 	X(LEGAL) \
+	X(U_CASE) \
 	X(IMP(OP_EQ, g_lts != TS_NULLPTR && g_rts != TS_NULLPTR))
 
 #define POST(X) \
@@ -119,11 +125,19 @@ harness(void)
 	IN(unsigned, in_rts); IN(unsigned, in_rbs); IN(unsigned, in_rq); IN(unsigned, in_rek); IN(u64, in_rv); IN(unsigned, in_rw);
 	IN(bool, in_llv); IN(bool, in_rlv); IN(unsigned, in_lafter); IN(unsigned, in_rafter);
 
+#ifdef V_OP
+	op = V_OP;          /* one CBMC run per operator (compile-time case split; the variants cover OP_ANY) */
+#else
 	op = in_op;
+#endif
 	in.signedchar = in_signedchar; in.enAb = in_enAb; in.enBb = in_enBb;
 	in.lts = in_lts; in.lbs = in_lbs; in.lq = in_lq; in.lek = in_lek; in.lv = in_lv; in.lw = in_lw; in.lafter = in_lafter; in.llv = in_llv;
 	in.rts = in_rts; in.rbs = in_rbs; in.rq = in_rq; in.rek = in_rek; in.rv = in_rv; in.rw = in_rw; in.rafter = in_rafter; in.rlv = in_rlv;
 	mkb_build(&in, &l, &r);
+	g_common = BOTH_ARITH ? spec_common(LC, g_lw, RC, g_rw, SC) : -1;
+	g_proml = L_ARITH ? spec_promote(LC, g_lw, SC) : -1;
+	g_promr = R_ARITH ? spec_promote(RC, g_rw, SC) : -1;
+	g_compat = spec_bscompat(g_lbs, g_rbs);
 	g_no_error = 1;     /* a valid expression must be typed, not diagnosed */
 	HCALLR(struct expr *, PRE, POST, mkbinaryexpr(loc, op, l, r));
 }
